@@ -192,30 +192,13 @@ Fixpoint wf_items (z : zone) (depth : nat) (items : list ditem) : bool :=
 Definition wf (toks : list tok) (dc : decor) : bool :=
   Nat.leb (length (d_after dc)) (length toks) && wf_items ZStart 0 (decorate toks dc).
 
-(** * defect classes of the current implementation (decidable, on the decorated token list) *)
-(** class 3: a multiplier in a coarse fragment *)
+(** * defect class of the current implementation (decidable, on the decorated token list) *)
+(** class 3 (the number is kept from the time when there were three classes; classes 1
+    "descriptor after a ring-bond marker with symbol" and 2 "order-0 symbol before a non-leading
+    descriptor" were repaired in /repo by commits f3554b8 and 0d0f450): a multiplier in a coarse
+    fragment *)
 Definition has_mult (items : list ditem) : bool :=
   existsb (fun i => match i with ITok (TMult _) => true | _ => false end) items.
-(** class 2: the order-0 symbol before a non-leading descriptor *)
-Definition nonlead_zero (items : list ditem) : bool :=
-  existsb (fun i => match i with IDesc d => match d_sym d with Some BZero => true | _ => false end | _ => false end) items.
-(** class 1: a ring-bond marker written with a bond symbol of non-zero order, and the first
-    descriptor written after it before the next atom has no symbol of its own.  [cur] = such a
-    symbol has been seen and neither an atom nor a descriptor came since. *)
-Definition order_truthy (b : bsym) : bool := match b with BZero => false | _ => true end.
-Fixpoint stale_ring (cur : bool) (items : list ditem) : bool :=
-  match items with
-  | [] => false
-  | ILead _ :: r => stale_ring cur r
-  | IDesc d :: r => match d_sym d with None => cur || stale_ring cur r | Some _ => stale_ring false r end
-  | ITok t :: r =>
-      match t with
-      | TAtom _ | TBracket _ _ => stale_ring false r
-      | TBond b | TRing (Some b) _ => stale_ring (order_truthy b) r
-      | _ => stale_ring cur r
-      end
-  end.
-Definition class_of (items : list ditem) : nat :=
-  if has_mult items then 3 else if nonlead_zero items then 2 else if stale_ring false items then 1 else 0.
+Definition class_of (items : list ditem) : nat := if has_mult items then 3 else 0.
 Definition excluded_items (items : list ditem) : bool := negb (Nat.eqb (class_of items) 0).
 Definition excluded (toks : list tok) (dc : decor) : bool := excluded_items (decorate toks dc).
